@@ -306,10 +306,15 @@ def gen_case(r):
             closed += 1
             continue
         x = r.below(100)
+        if kind == "pool" and slow and x >= 22:
+            # a pool whose accept thread is held by a stalled authentication: the next thing that happens is the end of that stall
+            # (a client that connects meanwhile, talks and leaves before it is admitted races with its own admission: whether its
+            # frames are still consumed depends on the kernel's buffers)
+            x = r.below(22)
         if hooked and r.chance(1, 3):
             toks.append("h%d" % hooked.pop(0))
             continue
-        if live and not closed and r.chance(1, 8) and (kind != "pool" or len(stuck) + 1 < nb):
+        if live and not closed and not (kind == "pool" and slow) and r.chance(1, 8) and (kind != "pool" or len(stuck) + 1 < nb):
             k = r.choice(live)
             live.remove(k)
             stuck.append(k)
@@ -319,7 +324,7 @@ def gen_case(r):
             k = stuck.pop(0)
             toks.append(("z%d" if transport == "tcp" and r.chance(1, 3) else "a%d") % k)
             continue
-        if kind == "threaded" and live and not closed and r.chance(1, 7):
+        if kind == "threaded" and live and not closed and r.chance(1, 7):  # (threaded only: `slow` on a pool is handled above)
             k = r.choice(live)
             if k not in armed:
                 armed.append(k)
